@@ -77,7 +77,7 @@ func (c *C07Case) input() []byte {
 
 func drawC07(t *rapid.T) Case {
 	c := &C07Case{Entry: rapid.IntRange(0, len(c07Entries)-1).Draw(t, "entry")}
-	maxN := 120000
+	maxN := 3000000 // 3 MB of brackets: enough to exhaust a 1 GB goroutine stack with one small frame per level
 	if thorough() {
 		maxN = 3000000
 	}
